@@ -10,10 +10,10 @@ import (
 func init() {
 	register(&propDef{
 		id: "C01", run: runC01, minOblig: 12,
-		explanation: "Decides the RFC 8439 section 2.8 construction as implemented by the portable path, and the dispatch to the assembly path (not the ChaCha20 / Poly1305 arithmetic). (construction) sealGeneric and openGeneric are interpreted interprocedurally (helpers inlined, slices represented by lengths) for every additional-data length 0..33 and plaintext length 0..33, with and without spare capacity in dst: the one-time key is 32 bytes of key stream produced on a zeroed array before SetCounter(1); the payload is XORed after that with counter 1; the MAC, keyed with that array, absorbs exactly — in this order and nothing else — the additional data, zero bytes up to a multiple of 16, the ciphertext (Seal: the XOR destination; Open: the received bytes without the tag), zero bytes up to a multiple of 16, the 8-byte little-endian length of the additional data and of the ciphertext; Seal writes the tag right after the ciphertext; Open verifies the last 16 received bytes and decrypts only on success, returning the plaintext region, and on failure zeroes the output region and returns nil with the error; (XChaCha) Seal and Open of the extended-nonce variant derive the key with HChaCha20(key, nonce[0:16]) and use the nonce 4 zero bytes followed by nonce[16:24], identically; (entry points) Seal/Open panic for a wrong nonce length and over-long inputs, Open rejects inputs shorter than the tag; (dispatch) the assembly routines are reachable only under feature assignments that imply the extensions their mnemonics need, and without them the generic routines run; setupState lays out the RFC constants, key, a zero block counter and the nonce. NOT decided: that either implementation computes ChaCha20 or Poly1305 correctly — in particular nothing inside the 5k-line assembly file.",
+		explanation: "Decides the RFC 8439 section 2.8 construction as implemented by the portable path, the XChaCha key/nonce derivation, the entry guards, and the dispatch to and the arguments of the assembly path (not the ChaCha20 / Poly1305 arithmetic). All rules interpret the code (helpers of the package inlined, values identified by provenance — which parameter, field or allocation, at which offset — never by the names of locals, parameters or helpers, nor by which function a step sits in). (construction) sealGeneric and openGeneric are interpreted with slices represented by lengths for every additional-data length 0..33 and plaintext length 0..33, with and without spare capacity in dst: the cipher is created from the receiver's 32-byte key array and the whole 12-byte nonce; the one-time key is 32 bytes of key stream produced on a zeroed array before SetCounter(1); the payload is XORed after that with counter 1; the MAC, keyed with that array, absorbs exactly — in this order and nothing else — the additional data, zero bytes up to a multiple of 16, the ciphertext (Seal: the bytes of the output region after the XOR wrote them; Open: the received bytes without the tag), zero bytes up to a multiple of 16, the 8-byte little-endian length of the additional data and of the ciphertext; Seal writes the tag right after the ciphertext and returns a buffer that starts with dst's bytes (dst resliced into its spare capacity, or a fresh buffer dst was copied into — via make+copy, append or slices.Grow, in a helper or not) followed by exactly the output region, and nothing overwrites the output region (which an in-place caller passes as input) before it is read; Open verifies the last 16 received bytes and decrypts only on success, returning dst plus the plaintext region, and on failure zeroes the output region and returns (nil, errOpen); (XChaCha) Seal and Open of the extended-nonce variant are interpreted on a byte-accurate memory in which every key and nonce byte has its own value: at the call that hands over to seal/open of the ChaCha20-Poly1305 type, that receiver's key bytes are the output of HChaCha20(the XChaCha receiver's 32 key bytes, nonce bytes 0..15), the nonce argument is the 12 bytes 0,0,0,0,nonce[16..23], dst, the text and the additional data are passed whole and unchanged, and the call's results are returned; (entry points) Seal/Open of both types, interpreted for a table of nonce and input lengths, panic for a wrong nonce length and over-long inputs before reaching the implementation, Open rejects inputs shorter than the tag with (nil, errOpen), valid calls reach the implementation; (dispatch) the assembly routines are reachable only under feature assignments that imply the extensions their mnemonics need, and without them the generic routines run; seal/open of the AEAD type, interpreted on the byte-accurate memory with the package's feature switches on, hand the assembly routine a 16-word state holding the RFC 8439 constants, the eight little-endian key words, a zero block counter and the three little-endian nonce words (however they are put there), the whole output region right behind dst's bytes, the text (Open: without the tag) and the additional data, and return dst plus that region (Open: (nil, errOpen) and a zeroed region when the routine reports failure); every assembly call site of the package is covered. NOT decided: that either implementation computes ChaCha20 or Poly1305 correctly — in particular nothing inside the 5k-line assembly file; the buffer-overlap panics.",
 		assumptions: []string{"chacha20.Cipher position semantics (C03)", "poly1305.MAC Write/Sum/Verify are the MAC over the written bytes", "mnemonic -> extension table of the E9 engine"},
 	})
-	tech("C01", "interprocedural finite-domain interpretation of the AEAD construction against the RFC 8439 transcript over all small length pairs; argument-provenance sibling rule for XChaCha; assembly mnemonic scan + exhaustive dispatch evaluation")
+	tech("C01", "interprocedural finite-domain interpretation of the AEAD construction against the RFC 8439 transcript over all small length pairs (provenance classes for slices and scratch storage); byte-accurate concrete-valued interpretation (distinct value per input byte, two assignments) of the XChaCha derivation and of the assembly call's state block and arguments; length-table interpretation of the entry guards; assembly mnemonic scan + exhaustive dispatch evaluation")
 }
 
 func runC01(c *Ctx) {
@@ -24,7 +24,7 @@ func runC01(c *Ctx) {
 	c01Generic(c, pkg, false)
 	c01X(c, pkg)
 	c01Entry(c, pkg)
-	c01SetupState(c, pkg)
+	c01AsmState(c, pkg, n >= 0)
 }
 
 type aeadSeg struct {
@@ -41,8 +41,13 @@ func c01Generic(c *Ctx, pkg string, seal bool) {
 	if f == nil {
 		return
 	}
-	dstP, nonceP, textP, adP := f.Params[1], f.Params[2], f.Params[3], f.Params[4]
-	_ = nonceP
+	if len(f.Params) != 5 {
+		c.undecided("C01.construction", pkg+"."+fname, f, "unexpected signature")
+		return
+	}
+	recvP, dstP, nonceP, textP, adP := f.Params[0], f.Params[1], f.Params[2], f.Params[3], f.Params[4]
+	keyField := c01ArrayField(recvP.Type(), 32)
+	const dstLen = 5
 	cases, bad := 0, ""
 	verdicts := []int64{1}
 	if !seal {
@@ -57,31 +62,71 @@ func c01Generic(c *Ctx, pkg string, seal bool) {
 						total = n + 16
 					}
 					w := &pathWalker{env: newEnv(), lengths: true, maxSteps: 30000, assumeErrNil: true}
-					w.env.bind(dstP, 5)
+					w.env.bind(dstP, dstLen)
+					w.env.bind(nonceP, 12)
 					w.env.bind(textP, total)
 					w.env.bind(adP, a)
-					// classes of slice values
-					class := map[ssa.Value]string{adP: "AD", textP: "TEXT", dstP: "DST"}
-					off := map[ssa.Value]int64{adP: 0, textP: 0, dstP: 0}
-					content := map[*ssa.Alloc]string{} // local arrays: "" zero, "LE64(n)", "KEYSTREAM"
-					var polyKeyAlloc *ssa.Alloc
+					// classes of slice values, by provenance: which parameter's bytes (from
+					// which offset) a value denotes. "BUF" is any buffer that starts with
+					// dst's bytes — dst itself (resliced into its spare capacity) or a fresh
+					// buffer dst was copied to the front of; the bytes behind dst's are the
+					// output region, printed as OUT@0.. — however the buffer was obtained
+					// (a helper, inline code, make+copy, append, slices.Grow).
+					class := map[ssa.Value]string{adP: "AD", textP: "TEXT", dstP: "BUF", nonceP: "NONCE", recvP: "RECV"}
+					off := map[ssa.Value]int64{adP: 0, textP: 0, dstP: 0, nonceP: 0, recvP: 0}
+					// norm: class and offset as printed (BUF behind dst's bytes = OUT)
+					norm := func(v ssa.Value) (string, int64, bool) {
+						cl, ok := class[v]
+						if !ok {
+							return "", 0, false
+						}
+						if cl == "BUF" && off[v] >= dstLen {
+							return "OUT", off[v] - dstLen, true
+						}
+						return cl, off[v], true
+					}
+					ctLen := int64(-1) // Seal: OUT@0..ctLen holds the ciphertext once the payload XOR ran
+					// fresh local storage (a local array, new(T), make) is identified by the
+					// allocating instruction and followed through slice expressions and into
+					// the parameters of inlined helpers / out of their results (stor), so a
+					// scratch array may be declared in one function and filled in another
+					content := map[ssa.Value]string{} // "" zero, "KEYSTREAM"
+					var polyKeyAlloc ssa.Value
+					type c01Stor struct {
+						base ssa.Value
+						off  int64
+					}
+					stor := map[ssa.Value]c01Stor{}
 					var evs []string
 					var mac []aeadSeg
 					macKeyed := false
-					var ctVal ssa.Value
 					zeroed := int64(0)
 					// byte-granular contents of local arrays written by PutUint64 (any split of
 					// the length block into one or two scratch arrays reads the same)
-					bytesOf := map[*ssa.Alloc]map[int64]string{}
-					baseOff := func(w *pathWalker, v ssa.Value) (*ssa.Alloc, int64) {
-						if sl, ok := v.(*ssa.Slice); ok {
-							if al, ok := sl.X.(*ssa.Alloc); ok {
-								lo := int64(0)
-								if sl.Low != nil {
-									lo, _ = w.env.eval(sl.Low)
-								}
-								return al, lo
+					bytesOf := map[ssa.Value]map[int64]string{}
+					var baseOff func(w *pathWalker, v ssa.Value) (ssa.Value, int64)
+					baseOff = func(w *pathWalker, v ssa.Value) (ssa.Value, int64) {
+						if s, ok := stor[v]; ok {
+							return s.base, s.off
+						}
+						switch x := v.(type) {
+						case *ssa.Alloc:
+							return x, 0
+						case *ssa.MakeSlice:
+							return x, 0
+						case *ssa.Slice:
+							b, o := baseOff(w, x.X)
+							if b == nil {
+								return nil, 0
 							}
+							if x.Low != nil {
+								lo, ok := w.env.eval(x.Low)
+								if !ok {
+									return nil, 0
+								}
+								o += lo
+							}
+							return b, o
 						}
 						return nil, 0
 					}
@@ -108,16 +153,13 @@ func c01Generic(c *Ctx, pkg string, seal bool) {
 						}
 						mac = append(mac, aeadSeg{cl, l})
 					}
-					baseAlloc := func(v ssa.Value) *ssa.Alloc {
-						if sl, ok := v.(*ssa.Slice); ok {
-							if al, ok := sl.X.(*ssa.Alloc); ok {
-								return al
-							}
+					var curW *pathWalker
+					baseAlloc := func(v ssa.Value) ssa.Value {
+						if _, classed := class[v]; classed {
+							return nil
 						}
-						if al, ok := v.(*ssa.Alloc); ok {
-							return al
-						}
-						return nil
+						b, _ := baseOff(curW, v)
+						return b
 					}
 					w.inline = func(callee *ssa.Function) bool {
 						return callee.Pkg != nil && short(callee.Pkg.Pkg.Path()) == pkg
@@ -131,36 +173,71 @@ func c01Generic(c *Ctx, pkg string, seal bool) {
 								} else {
 									delete(class, p)
 								}
+								// a pointer to the receiver's key array
+								if fa, ok := args[i].(*ssa.FieldAddr); ok && class[fa.X] == "RECV" && keyField != "" {
+									if st := derefStruct(fa.X.Type()); st != nil && st.Field(fa.Field).Name() == keyField {
+										class[p], off[p] = "KEY", 0
+									}
+								}
+								delete(stor, p)
+								if b, o := baseOff(parent, args[i]); b != nil {
+									stor[p] = c01Stor{b, o}
+								}
 							}
 						}
 						// fresh locals
 						allInstrs(callee, func(in ssa.Instruction) {
-							if al, ok := in.(*ssa.Alloc); ok {
-								delete(content, al)
+							switch in.(type) {
+							case *ssa.Alloc, *ssa.MakeSlice:
+								delete(content, in.(ssa.Value))
+								delete(bytesOf, in.(ssa.Value))
 							}
 						})
 					}
 					w.onReturn = func(parent, child *pathWalker, call *ssa.Call, results []ssa.Value) {
-						if short(calleeName(&call.Call)) == pkg+".sliceForAppend" && len(results) == 2 {
-							// head: "RET" (dst followed by the output region), tail: "OUT"
-							for _, ref := range *call.Referrers() {
-								if ex, ok := ref.(*ssa.Extract); ok {
-									if ex.Index == 0 {
-										class[ex], off[ex] = "RET", 0
-									} else {
-										class[ex], off[ex] = "OUT", 0
-									}
-								}
+						// a helper's results denote what the returned values denote
+						set := func(dst, r ssa.Value) {
+							if cl, ok := class[r]; ok {
+								class[dst], off[dst] = cl, off[r]
+							} else {
+								delete(class, dst)
+							}
+							delete(stor, dst)
+							if b, o := baseOff(child, r); b != nil {
+								stor[dst] = c01Stor{b, o}
 							}
 						}
-					}
-					w.onSlice = func(w *pathWalker, sl *ssa.Slice) {
-						if cl, ok := class[sl.X]; ok {
-							lo := int64(0)
-							if sl.Low != nil {
-								lo, _ = w.env.eval(sl.Low)
+						if len(results) == 1 {
+							set(call, results[0])
+							return
+						}
+						c01Extracts(call, func(ex *ssa.Extract) {
+							if ex.Index < len(results) {
+								set(ex, results[ex.Index])
 							}
+						})
+					}
+					grown := map[ssa.Value]int64{}
+					w.onSlice = func(w *pathWalker, sl *ssa.Slice) {
+						lo := int64(0)
+						if sl.Low != nil {
+							lo, _ = w.env.eval(sl.Low)
+						}
+						if g, ok := grown[sl.X]; ok {
+							if l, okl := w.env.eval(sl); okl && lo+l > g {
+								w.oob = true
+							}
+						}
+						if cl, ok := class[sl.X]; ok && cl != "RECV" {
 							class[sl], off[sl] = cl, off[sl.X]+lo
+							return
+						}
+						delete(class, sl)
+						// the receiver's 32-byte key array
+						if fa, ok := sl.X.(*ssa.FieldAddr); ok && class[fa.X] == "RECV" && keyField != "" {
+							if st := derefStruct(fa.X.Type()); st != nil && st.Field(fa.Field).Name() == keyField {
+								class[sl], off[sl] = "KEY", lo
+							}
 						}
 					}
 					w.onPhi = func(w *pathWalker, ph *ssa.Phi, in ssa.Value) {
@@ -169,11 +246,15 @@ func c01Generic(c *Ctx, pkg string, seal bool) {
 						} else {
 							delete(class, ph)
 						}
+						delete(stor, ph)
+						if b, o := baseOff(w, in); b != nil {
+							stor[ph] = c01Stor{b, o}
+						}
 					}
 					desc := func(w *pathWalker, v ssa.Value) string {
 						l, _ := w.env.eval(v)
-						if cl, ok := class[v]; ok {
-							return fmt.Sprintf("%s@%d+%d", cl, off[v], l)
+						if cl, o, ok := norm(v); ok {
+							return fmt.Sprintf("%s@%d+%d", cl, o, l)
 						}
 						if al := baseAlloc(v); al != nil {
 							k := content[al]
@@ -187,6 +268,7 @@ func c01Generic(c *Ctx, pkg string, seal bool) {
 					w.onCall = func(w *pathWalker, ci ssa.CallInstruction) string {
 						cc := ci.Common()
 						name := short(calleeName(cc))
+						curW = w
 						switch {
 						case name == "builtin:cap":
 							if v, ok := ci.(ssa.Value); ok {
@@ -199,9 +281,68 @@ func c01Generic(c *Ctx, pkg string, seal bool) {
 							}
 						case strings.HasSuffix(name, "alias.InexactOverlap"), strings.HasSuffix(name, "alias.AnyOverlap"):
 							w.env.bind(ci.(ssa.Value), 0)
+						case name == "builtin:copy" && len(cc.Args) == 2:
+							// dst copied to the front of a fresh buffer: that buffer now starts with dst's bytes
+							if cl, o, ok := norm(cc.Args[1]); ok && cl == "BUF" && o == 0 {
+								ls, _ := w.env.eval(cc.Args[1])
+								ld, okd := w.env.eval(cc.Args[0])
+								if _, has := class[cc.Args[0]]; !has && okd && ls == dstLen && ld >= ls {
+									var base ssa.Value = cc.Args[0]
+									if sl, isS := base.(*ssa.Slice); isS {
+										if lo, _ := w.env.eval(sl.Low); sl.Low == nil || lo == 0 {
+											base = sl.X
+										}
+									}
+									if mk, isM := base.(*ssa.MakeSlice); isM {
+										class[mk], off[mk] = "BUF", 0
+										class[cc.Args[0]], off[cc.Args[0]] = "BUF", 0
+									}
+								}
+							}
+						case name == "builtin:append" && len(cc.Args) == 2:
+							v, isV := ci.(ssa.Value)
+							l0, ok0 := w.env.eval(cc.Args[0])
+							l1, ok1 := w.env.eval(cc.Args[1])
+							if !isV || !ok0 || !ok1 {
+								break
+							}
+							w.env.bind(v, l0+l1)
+							delete(class, v)
+							cl0, o0, has0 := norm(cc.Args[0])
+							cl1, o1, has1 := norm(cc.Args[1])
+							switch {
+							case has0 && cl0 == "BUF" && o0 == 0 && l0 >= dstLen:
+								// growing the buffer that starts with dst: with spare capacity the
+								// appended bytes are WRITTEN into dst's array behind its length —
+								// the very bytes an in-place caller passes as input
+								class[v], off[v] = "BUF", 0
+								if spare && l1 > 0 {
+									evs = append(evs, fmt.Sprintf("overwrite(OUT@%d+%d)", l0-dstLen, l1))
+								}
+							case !has0 && l0 == 0 && has1 && cl1 == "BUF" && o1 == 0 && l1 == dstLen:
+								class[v], off[v] = "BUF", 0
+							}
+						case strings.HasPrefix(name, "slices.Grow") && len(cc.Args) == 2:
+							if v, isV := ci.(ssa.Value); isV {
+								delete(class, v)
+								if cl, ok := class[cc.Args[0]]; ok {
+									class[v], off[v] = cl, off[cc.Args[0]]
+								}
+								if l, ok := w.env.eval(cc.Args[0]); ok {
+									w.env.bind(v, l)
+									// the only capacity Grow guarantees
+									if n, okn := w.env.eval(cc.Args[1]); okn && !spare {
+										grown[v] = l + n
+									}
+								}
+							}
 						case name == "chacha20.NewUnauthenticatedCipher":
 							evs = append(evs, "cipher(key,nonce)")
-							if sl, ok := cc.Args[0].(*ssa.Slice); !ok || !strings.HasSuffix(accessPath(sl.X), ".key") || cc.Args[1] != ssa.Value(nonceP) {
+							kc, ko, _ := norm(cc.Args[0])
+							kl, _ := w.env.eval(cc.Args[0])
+							nc, no, _ := norm(cc.Args[1])
+							nl, _ := w.env.eval(cc.Args[1])
+							if kc != "KEY" || ko != 0 || kl != 32 || nc != "NONCE" || no != 0 || nl != 12 {
 								evs = append(evs, "cipher-args?")
 							}
 						case strings.HasSuffix(name, "chacha20.Cipher).XORKeyStream"):
@@ -213,10 +354,9 @@ func c01Generic(c *Ctx, pkg string, seal bool) {
 								evs = append(evs, fmt.Sprintf("xor(zero array,%d)", l))
 							} else {
 								evs = append(evs, "xor("+desc(w, d)+"<-"+desc(w, s)+")")
-								if seal {
-									ctVal = d
-									class[d], off[d] = "CT", 0
-									// later slices of OUT that denote the same region keep class OUT; the MAC must see this very value
+								if cl, o, ok := norm(d); seal && ok && cl == "OUT" && o == 0 {
+									// from here on these bytes of the output region are the ciphertext
+									ctLen, _ = w.env.eval(d)
 								}
 							}
 						case strings.HasSuffix(name, "chacha20.Cipher).SetCounter"):
@@ -232,8 +372,11 @@ func c01Generic(c *Ctx, pkg string, seal bool) {
 						case strings.HasSuffix(name, "poly1305.MAC).Write"):
 							l, _ := w.env.eval(cc.Args[1])
 							cl := "?"
-							if k, ok := class[cc.Args[1]]; ok {
-								cl = fmt.Sprintf("%s@%d", k, off[cc.Args[1]])
+							if k, o, ok := norm(cc.Args[1]); ok {
+								if k == "OUT" && seal && o+l <= ctLen {
+									k = "CT"
+								}
+								cl = fmt.Sprintf("%s@%d", k, o)
 							} else if al, lo := baseOff(w, cc.Args[1]); al != nil {
 								// byte by byte: complete little-endian words become one segment each
 								for i := lo; i < lo+l; {
@@ -274,7 +417,7 @@ func c01Generic(c *Ctx, pkg string, seal bool) {
 								}
 							}
 						case name == "builtin:clear":
-							if cl, isC := class[cc.Args[0]]; isC && cl == "OUT" {
+							if cl, _, isC := norm(cc.Args[0]); isC && cl == "OUT" {
 								l, _ := w.env.eval(cc.Args[0])
 								zeroed += l
 							}
@@ -288,8 +431,9 @@ func c01Generic(c *Ctx, pkg string, seal bool) {
 					}
 					w.onStore = func(w *pathWalker, st *ssa.Store) string {
 						if ia, ok := st.Addr.(*ssa.IndexAddr); ok {
-							if cl, isC := class[ia.X]; isC && cl == "OUT" {
-								if k, isK := constInt(st.Val); isK && k == 0 {
+							if cl, o, isC := norm(ia.X); isC && (cl == "OUT" || cl == "BUF") {
+								i, okI := w.env.eval(ia.Index)
+								if k, isK := w.env.eval(st.Val); isK && k == 0 && okI && (cl == "OUT" || o+i >= dstLen) {
 									zeroed++
 								}
 							}
@@ -326,10 +470,9 @@ func c01Generic(c *Ctx, pkg string, seal bool) {
 						if got != want {
 							bad = fmt.Sprintf("%s: code performs [%s], expected [%s]", id, got, want)
 						}
-						if cl := class[retVal(ret, 0)]; cl != "RET" {
+						if rl, _ := w.env.eval(retVal(ret, 0)); class[retVal(ret, 0)] != "BUF" || off[retVal(ret, 0)] != 0 || rl != dstLen+n+16 {
 							bad = id + ": Seal does not return dst followed by the output region"
 						}
-						_ = ctVal
 					} else {
 						want = fmt.Sprintf("cipher(key,nonce) xor(zero array,32) counter=1 mac(polykey) verify(TEXT@%d+16)", n)
 						if verdict == 1 {
@@ -339,7 +482,7 @@ func c01Generic(c *Ctx, pkg string, seal bool) {
 							bad = fmt.Sprintf("%s: code performs [%s], expected [%s]", id, got, want)
 						}
 						if verdict == 1 {
-							if class[retVal(ret, 0)] != "RET" || !isNilConst(retVal(ret, 1)) {
+							if rl, _ := w.env.eval(retVal(ret, 0)); class[retVal(ret, 0)] != "BUF" || off[retVal(ret, 0)] != 0 || rl != dstLen+n || !isNilConst(retVal(ret, 1)) {
 								bad = id + ": a verified Open does not return dst followed by the plaintext region with a nil error"
 							}
 						} else {
@@ -362,172 +505,4 @@ func c01Generic(c *Ctx, pkg string, seal bool) {
 		}
 	}
 	c.check(bad == "" && cases > 2000, "C01.construction", pkg+"."+fname, f, fmt.Sprintf("%d (len(ad), len(text), capacity, verdict) cases agree with the RFC 8439 section 2.8 transcript", cases), bad)
-}
-
-func c01X(c *Ctx, pkg string) {
-	for _, m := range []struct{ name, inner string }{{"Seal", "seal"}, {"Open", "open"}} {
-		f := c.fn(pkg, "(*xchacha20poly1305)."+m.name)
-		if f == nil {
-			continue
-		}
-		nonce := f.Params[2]
-		sliceOf := func(v ssa.Value, base ssa.Value, lo, hi int64) bool {
-			sl, ok := v.(*ssa.Slice)
-			if !ok || sl.X != base {
-				return false
-			}
-			l, h := int64(0), int64(-1)
-			if sl.Low != nil {
-				l, _ = constInt(sl.Low)
-			}
-			if sl.High != nil {
-				h, _ = constInt(sl.High)
-			}
-			return l == lo && h == hi
-		}
-		hc := callsNamed(f, "chacha20.HChaCha20")
-		ok := len(hc) == 1
-		var inner *ssa.Alloc
-		if ok {
-			a := hc[0].Common().Args
-			ks, isS := a[0].(*ssa.Slice)
-			ok = isS && strings.HasSuffix(accessPath(ks.X), ".key") && accessPath(ks.X) == "x.key" && sliceOf(a[1], nonce, 0, 16)
-		}
-		c.check(ok, "C01.xchacha", m.name+" subkey", f, "HChaCha20(x.key, nonce[0:16])", "the XChaCha subkey is not HChaCha20(key, nonce[0:16])")
-		// copy(c.key[:], hKey)
-		okKey := false
-		var cnonce ssa.Value
-		for _, ci := range callsNamed(f, "builtin:copy") {
-			a := ci.Common().Args
-			if ds, isS := a[0].(*ssa.Slice); isS {
-				if fa, isF := ds.X.(*ssa.FieldAddr); isF {
-					if al, isA := fa.X.(*ssa.Alloc); isA && len(hc) == 1 {
-						if ex, isE := a[1].(*ssa.Extract); isE && ex.Tuple == callValue(hc[0]) && ex.Index == 0 {
-							okKey = true
-							inner = al
-						}
-					}
-				}
-				// copy(cNonce[4:12], nonce[16:24])
-				if mk, isM := ds.X.(*ssa.MakeSlice); isM {
-					l, _ := constInt(mk.Len)
-					if l == 12 && sliceOf(a[0], mk, 4, 12) && sliceOf(a[1], nonce, 16, 24) {
-						cnonce = mk
-					}
-				}
-				if sl2, isS2 := ds.X.(*ssa.Slice); isS2 {
-					if al, isA := sl2.X.(*ssa.Alloc); isA && al.Comment == "makeslice" {
-						if sliceOf(a[0], sl2, 4, 12) && sliceOf(a[1], nonce, 16, 24) {
-							cnonce = sl2
-						}
-					}
-				}
-			}
-		}
-		c.check(okKey, "C01.xchacha", m.name+" inner key", f, "the inner AEAD key is the HChaCha20 output", "the inner AEAD is not keyed with the HChaCha20 output")
-		c.check(cnonce != nil, "C01.xchacha", m.name+" inner nonce", f, "12-byte nonce = 4 zero bytes | nonce[16:24]", "the inner nonce is not 4 zero bytes followed by nonce[16:24]")
-		ic := calls(f, func(n string) bool { return strings.HasSuffix(n, "chacha20poly1305)."+m.inner) })
-		okCall := len(ic) == 1 && inner != nil && cnonce != nil
-		if okCall {
-			a := ic[0].Common().Args
-			ns, isS := a[2].(*ssa.Slice)
-			okCall = a[0] == ssa.Value(inner) && a[1] == ssa.Value(f.Params[1]) && isS && ns.X == cnonce && ns.Low == nil && ns.High == nil && a[3] == ssa.Value(f.Params[3]) && a[4] == ssa.Value(f.Params[4])
-		}
-		c.check(okCall, "C01.xchacha", m.name+" delegation", f, "c."+m.inner+"(dst, cNonce, text, additionalData) on the re-keyed AEAD", "the extended-nonce "+m.name+" does not delegate to the inner AEAD with the derived key and nonce")
-	}
-}
-
-func c01Entry(c *Ctx, pkg string) {
-	for _, t := range []struct {
-		typ      string
-		nonceLen int64
-	}{{"chacha20poly1305", 12}, {"xchacha20poly1305", 24}} {
-		for _, m := range []string{"Seal", "Open"} {
-			f := c.fn(pkg, "(*"+t.typ+")."+m)
-			if f == nil {
-				continue
-			}
-			bad := ""
-			inner := strings.ToLower(m)
-			for _, nl := range []int64{0, 8, 12, 16, 24, 32} {
-				for _, tl := range []int64{0, 15, 16, 17, 100, 1<<38 - 64, 1<<38 - 63, 1<<38 - 48, 1<<38 - 47} {
-					e := newEnv()
-					e.bindLen(f, f.Params[2], nl)
-					e.bindLen(f, f.Params[3], tl)
-					pans, rets, blocks := e.reachableExits(f, nil)
-					reached := false
-					for _, ci := range calls(f, func(n string) bool { return strings.HasSuffix(n, "chacha20poly1305)."+inner) }) {
-						if blocks[ci.Block()] {
-							reached = true
-						}
-					}
-					limit := int64(1<<38 - 64)
-					if m == "Open" {
-						limit = 1<<38 - 48
-					}
-					wantPanic := nl != t.nonceLen || tl > limit && !(m == "Open" && tl < 16)
-					wantShort := m == "Open" && nl == t.nonceLen && tl < 16
-					switch {
-					case wantPanic && (len(pans) == 0 || reached):
-						bad = fmt.Sprintf("nonce length %d, input length %d: no panic", nl, tl)
-					case wantShort && (reached || len(rets) != 1):
-						bad = fmt.Sprintf("input length %d shorter than the tag is not rejected", tl)
-					case !wantPanic && !wantShort && (!reached || len(pans) > 0):
-						bad = fmt.Sprintf("nonce length %d, input length %d: valid call does not reach the implementation", nl, tl)
-					}
-				}
-			}
-			c.check(bad == "", "C01.entry", t.typ+"."+m, f, "nonce length, size limit and minimum length guards as documented", bad)
-		}
-	}
-}
-
-func c01SetupState(c *Ctx, pkg string) {
-	f := c.fnOpt(pkg, "setupState")
-	if f == nil || len(f.Blocks) == 0 {
-		return
-	}
-	got := map[int64]string{}
-	allInstrs(f, func(in ssa.Instruction) {
-		st, ok := in.(*ssa.Store)
-		if !ok {
-			return
-		}
-		ia, ok := st.Addr.(*ssa.IndexAddr)
-		if !ok || ia.X != ssa.Value(f.Params[0]) {
-			return
-		}
-		idx, _ := constInt(ia.Index)
-		if k, isK := constInt(st.Val); isK {
-			got[idx] = fmt.Sprintf("%#x", k)
-			return
-		}
-		if cl, isC := st.Val.(*ssa.Call); isC && strings.HasPrefix(short(calleeName(&cl.Call)), "(encoding/binary.littleEndian).Uint32") {
-			if sl, isS := cl.Call.Args[1].(*ssa.Slice); isS {
-				lo := int64(0)
-				if sl.Low != nil {
-					lo, _ = constInt(sl.Low)
-				}
-				base := "?"
-				switch sl.X {
-				case ssa.Value(f.Params[1]):
-					base = "key"
-				case ssa.Value(f.Params[2]):
-					base = "nonce"
-				}
-				got[idx] = fmt.Sprintf("%s@%d", base, lo)
-			}
-		}
-	})
-	want := map[int64]string{0: "0x61707865", 1: "0x3320646e", 2: "0x79622d32", 3: "0x6b206574", 12: "0x0", 13: "nonce@0", 14: "nonce@4", 15: "nonce@8"}
-	for i := int64(0); i < 8; i++ {
-		want[4+i] = fmt.Sprintf("key@%d", 4*i)
-	}
-	bad := ""
-	for i := int64(0); i < 16; i++ {
-		if got[i] != want[i] {
-			bad += fmt.Sprintf("state[%d]=%s (want %s) ", i, got[i], want[i])
-		}
-	}
-	c.check(bad == "", "C01.dispatch", "setupState layout", f, "constants | key | counter 0 | nonce (RFC 8439 2.3)", "the initial state handed to the assembly is not the RFC 8439 layout: "+bad)
 }
